@@ -66,12 +66,28 @@ def main():
     except ImplCrash as e:
         r = dict(evaluations=0, distinct_nontrivial=0, rule='', samples=[], failures=[], disagreements=[])
         problems.append(dict(kind='harness', what='the implementation driver crashed: ' + str(e)[-1500:]))
+        if e.inside_implementation():
+            # raised from inside the bisturi package, outside every outcome the driver records (no such raise exists on the unchanged
+            # tree): the declarations / first input of the driver are a concrete failing input; the payload is kept for the replay
+            d = os.path.join(VERIF, 'replays')
+            os.makedirs(d, exist_ok=True)
+            ppath = os.path.join(d, f'{pid}_driver_payload.json')
+            json.dump(e.payload, open(ppath, 'w'), default=str)
+            failures.append(dict(kind='oracle', sig='raises-outside-contract', driver=e.script, payload=ppath,
+                                 what='the implementation raises where the property requires a value or a PacketError (declaring the '
+                                      "driver's classes or running its first input): " + str(e)[-1200:]))
     except RuntimeError as e:
         r = dict(evaluations=0, distinct_nontrivial=0, rule='', samples=[], failures=[], disagreements=[])
         problems.append(dict(kind='model', what='the model could not be evaluated: ' + str(e)[-1500:]))
     failures += r.get('failures', [])
     for d in r.get('disagreements', []):
         problems.append(d)
+        case = d.get('case') or {}
+        if case.get('kind') == 'defined' and case.get('outcome') not in (None, 'ok'):
+            # the model accepts the declaration (and so does the unchanged implementation): a class that cannot even be declared
+            # fails the property on every input; the class source is the failing input
+            failures.append(dict(kind='oracle', sig='class-definition', classes=d.get('classes', ''),
+                                 what=f"declaring these (well-formed) classes raises {case.get('outcome')}"))
 
     # ---- 4. verdict
     known = known_findings(pid)
@@ -139,7 +155,20 @@ def do_replay(path):
         print(json.dumps(obj, indent=1)[:4000])
         print("this replay names broken obligations; re-run the check to re-evaluate them")
         return 0
-    still, info = mod.replay(obj['failure'])
+    if obj['failure'].get('sig') == 'raises-outside-contract':
+        try:
+            run_impl(obj['failure']['driver'], json.load(open(obj['failure']['payload'])))
+            still, info = False, dict(note='the driver runs to completion')
+        except ImplCrash as e:
+            still, info = True, dict(trace=str(e)[-2000:])
+    elif obj['failure'].get('sig') == 'class-definition':
+        try:
+            run_impl(os.path.join(VERIF, 'harness', 'impl_exec.py'), dict(src=obj['failure']['classes']))
+            still, info = False, dict(note='the classes can be declared')
+        except ImplCrash as e:
+            still, info = True, dict(trace=str(e)[-2000:])
+    else:
+        still, info = mod.replay(obj['failure'])
     print(json.dumps(info, indent=1, default=str)[:4000])
     print('STILL FAILING' if still else 'no longer fails')
     return 1 if still else 0
